@@ -30,7 +30,8 @@ LEVEL = ("25 saveable classes (axes, discrete functions, operators, Hamiltonian 
          "original ones. All 5 export formats x real/complex x (N,) / (N,M) x with/without axis are enumerated for "
          "DFunction (DataSaveable) and Operator (MatrixData).")
 NOTE = ("The class registry and the observable extractors are hand-enumerated; a class not in the registry is not seen. "
-        "Text formats are compared to 1e-15 relative, binary formats exactly. Context operators are real symmetric.")
+        "Text formats are compared to 1e-15 relative, binary formats exactly. Context operators are real symmetric. Two-dimensional export data have >= 2 "
+        "columns (an (N,1) array cannot be told from (N,) in the text/axis protocol).")
 RULE = ("kind object: class id, integer content, ctx_save, ctx_load in {none, units, basis, both}, target path|file; "
         "kind export: grid over format/dtype/shape/axis plus generated values. Non-trivial: a non-trivial context at "
         "save or load (object), complex data or an axis (export).")
@@ -61,7 +62,7 @@ def _obj(draw):
 def _export(draw):
     return {"kind": "export", "owner": draw(st.sampled_from(["DFunction", "Operator"])), "fmt": draw(st.sampled_from(FORMATS)),
             "complex": draw(st.booleans()), "two_d": draw(st.booleans()), "axis": draw(st.booleans()),
-            "n": draw(st.integers(2, 12)), "m": draw(st.integers(1, 4)),
+            "n": draw(st.integers(2, 12)), "m": draw(st.integers(2, 4)),
             "ints": draw(st.lists(st.integers(-9, 9), min_size=96, max_size=96))}
 
 
@@ -427,7 +428,7 @@ def _check_export(case, ctx, tmp):
     vals = numpy.array([ints[i % len(ints)] for i in range(size)], dtype=float)
     if cplx:
         vals = vals + 1j * numpy.array([ints[(i + 7) % len(ints)] for i in range(size)], dtype=float)
-    vals = vals.reshape(shape) / 4.0
+    vals = vals.reshape(shape) / 7.0          # not exactly representable with a few decimal digits
     ax = qr.ValueAxis(1.5, n, 0.25)
     f = qr.DFunction()
     f.axis = ax
